@@ -77,6 +77,8 @@ def plan_iter(w: World, op: dict) -> Plan:
             if op.get("default_iter"):
                 return list(rs)
             return list(rs.iterator(m))
+        if op.get("default_iter"):
+            return list(rs)  # `for n in node`
         kw = {"add_self": add_self} if "add_self" in op else {}
         return list(rs.iterator(m, **kw))
 
